@@ -825,7 +825,7 @@ PROPS = {
     "C15": dict(module="FV.Props.C15", theorems=["FV.Props.C15_vec_from_iterator_partial"], suites=["emplace"], proj=proj_C15, oracle=oracle_C15, post=post_C15),
     "C18": dict(module="FV.Props.C18", theorems=["FV.Props.C18_vec_from_iterator_partial"], suites=["emplace"], proj=proj_C18, oracle=oracle_C18),
     "C20": dict(module="FV.Props.C20", theorems=["FV.Props.C20_vec_default_partial"], suites=["emplace"], proj=proj_C20, oracle=oracle_C20, post=post_C20),
-    "C11": dict(module="FV.Props.C11", theorems=["FV.Props.C11_push_refines", "FV.Props.C11_pop_refines"], suites=["ops"], proj=proj_C11, oracle=oracle_C11),
+    "C11": dict(module="FV.Props.C11", theorems=["FV.Props.C11_vec_step_refines", "FV.Props.C11_history", "FV.Props.C11_valid_gives_invariant"], suites=["ops"], proj=proj_C11, oracle=oracle_C11),
     "C12": dict(module="FV.Props.C12", theorems=["FV.Props.C12_truncate_beyond_noop_partial", "FV.Props.C12_pop_empty_partial"], suites=["ops"], proj=proj_C12, oracle=oracle_C12),
     "C13": dict(module="FV.Props.C13", theorems=["FV.Props.C13_vec_refused_unchanged"], suites=["ops"], proj=proj_C13, oracle=oracle_C13),
     "C14": dict(module="FV.Props.C14", theorems=["FV.Props.C14_write_frame", "FV.Props.C14_item_edit_frame"], suites=["emplace", "ops"], proj=proj_C14, oracle=oracle_C14),
